@@ -44,7 +44,7 @@ CLASSES = [
 ]
 POSTERS = ("runInLoop", "queueInLoop", "runAfter", "runAt", "runEvery")
 ATOMIC_TYPE = re.compile(r"std::atomic<|AtomicIntegerT<|\bAtomicInt32\b|\bAtomicInt64\b|\batomic_")
-SYNC_TYPE = re.compile(r"\b(MutexLock|Condition|CountDownLatch|pthread_mutex_t|pthread_cond_t)\b")
+SYNC_TYPE = re.compile(r"\b(MutexLock|Condition|CountDownLatch|Thread|pthread_mutex_t|pthread_cond_t)\b")
 
 
 # ------------------------------------------------------------------ clang
@@ -180,7 +180,12 @@ class Summary:
                                      # shared_ptr, weak_ptr, function, arithmetic, ...) | view (StringPiece) | ptr (raw pointer to
                                      # memory the caller owns) | ref (std::ref) | this | member (pointer to a member-owned
                                      # object) | transfer (pointer to an object allocated in this very function)
-        self.tails = {}              # member g written here -> members used (locks held) at/after the last write of g
+        self.tails = {}              # member g written here -> members used after the last write of g
+        self.taillocks = {}          # member g written here -> locks held at the last write of g (released afterwards)
+        self.body_nodes = []         # AST of the bodies (not serialised)
+        self.paths = None            # destructors: [(joined, [guard members])] over the paths through the body
+        self.regargs = []            # (target class, setter, calleeclass, callee, kind, type, file, line): arguments bound into a
+                                     # callback registered on another object (x->setXxxCallback(bind(...)))
         self.bodies = 0
         self.decl_line = None
         self.file = None
@@ -620,6 +625,27 @@ class Analyzer:
                 self.expr(a, ctx, "U")
             return
         # --- call on something else
+        if re.match(r"set\w*Callback$", mname or "") and base is not None:
+            tcls = class_of_type((base.get("type") or {}).get("desugaredQualType") or qt(base)) or class_of_type(qt(base))
+            if not tcls:                      # conn->... : std::__shared_ptr_access<muduo::net::TcpConnection, ...>::element_type *
+                for K in KNOWN_CLASSES:
+                    if re.search(r"\b%s\b" % K, qt(base)):
+                        tcls = K
+                        break
+            for a in args:
+                for x in walk(a):
+                    if x.get("kind") == "CallExpr" and len(kids(x)) >= 2 and \
+                       (strip(kids(x)[0]).get("referencedDecl") or {}).get("name") in ("bind", "makeWeakCallback"):
+                        bargs = kids(x)[1:]
+                        tgt = []
+                        for b in bargs:
+                            tgt += self.method_refs(b)
+                        if not tgt or not tcls:
+                            continue
+                        for b in bargs:
+                            kind, ty = self.bound_kind(b)
+                            if kind is not None:
+                                self.s.regargs.append((tcls, mname, tgt[0][0], tgt[0][1], kind, ty, f, l))
         if mname == "join":
             self.s.joins.append((tuple(sorted(ctx.guards)), f, l))
         if cal.get("isArrow"):
@@ -674,6 +700,7 @@ class Analyzer:
         cf = bool(first is not None and self.is_loop_query(first, "assertInLoopThread"))
         s.check_first = cf if s.check_first is None else (s.check_first and cf)
         base = len(s.accesses)
+        s.body_nodes.append(body)
         self.stmt(body, ctx)
         # the tail of the body after its last write of each member g: what this method may still be doing once another
         # thread has seen that value of g (used for thread entry functions against the destructor's join condition)
@@ -684,10 +711,13 @@ class Analyzer:
         for g, i in lastw.items():
             start = s.accloop[i] if s.accloop[i] is not None else i + 1
             # (accesses proven to be on the loop thread - inloop - are the owner's own and do not count)
-            t = set(a[0] for a in s.accesses[start:] if not a[3]) | set(s.accesses[i][2])
+            t = set(a[0] for a in s.accesses[start:] if not a[3])
             t |= set(m for (m, _f, _l, pos) in s.lockuses if pos >= start and pos >= base)
             t.discard(g)
             s.tails[g] = sorted(set(s.tails.get(g, [])) | t)
+            # the locks held at that write are released afterwards: still "in use" for whoever wants to DESTROY them, but
+            # no hazard for a consumer that has to take the same lock first (kept apart: m_taillocks)
+            s.taillocks[g] = sorted(set(s.taillocks.get(g, [])) | set(s.accesses[i][2]))
             s.tailranges.append((g, start, len(s.accesses)))
         if s.kind == "dtor":
             # implicit member destruction at the closing brace: the synchronisation members (~MutexLock, ~Condition, ...)
@@ -763,7 +793,7 @@ def analyse_class(objs, cname, all_classes):
             t = qt(ch)
             dt = (ch.get("type") or {}).get("desugaredQualType", t)
             f, l = loc_of(ch)
-            fields[ch["name"]] = {"type": t, "atomic": bool(ATOMIC_TYPE.search(t)), "sync": bool(SYNC_TYPE.search(t)) and "*" not in t,
+            fields[ch["name"]] = {"type": t, "atomic": bool(ATOMIC_TYPE.search(t)), "sync": bool(SYNC_TYPE.search(t)) and "*" not in t and "<" not in t,
                                   "const": is_const_type(t), "file": f, "line": l, "cls": class_of_type(dt), "tls": False}
         elif k in ("CXXMethodDecl", "CXXConstructorDecl", "CXXDestructorDecl") and not ch.get("isImplicit"):
             if ch.get("explicitlyDeleted") or ch.get("explicitlyDefaulted") == "deleted":
@@ -792,6 +822,66 @@ def analyse_class(objs, cname, all_classes):
                and n.get("id") not in methods:
                 ALL_METHOD_IDS[n["id"]] = (cname, methods[n["previousDecl"]])
                 an.function(sums[methods[n["previousDecl"]]], n)
+    def cond_members(c):
+        res = set()
+        for x in walk(c):
+            f_ = an.this_field(strip(x)) if x.get("kind") == "MemberExpr" else None
+            if f_:
+                res.add(f_)
+        return frozenset(res)
+
+    def seq(ps, qs):
+        out_ = set()
+        for (j1, g1) in ps:
+            for (j2, g2) in qs:
+                out_.add((j1 or j2, g1 | g2))
+        return sorted(out_, key=lambda p_: (p_[0], sorted(p_[1])))[:64]
+
+    def paths_expr(n, depth):
+        """paths contributed by the calls inside an expression: x.join() / x->join(); a call on `this` is inlined."""
+        ps = [(False, frozenset())]
+        for x in walk(n):
+            if x.get("kind") != "CXXMemberCallExpr":
+                continue
+            cal = kids(x)[0] if kids(x) else {}
+            if cal.get("kind") != "MemberExpr":
+                continue
+            b_ = strip(kids(cal)[0]) if kids(cal) else {}
+            if cal.get("name") == "join" and b_.get("kind") != "CXXThisExpr":
+                ps = seq(ps, [(True, frozenset())])
+            elif b_.get("kind") == "CXXThisExpr" and cal.get("name") in sums and depth < 4:
+                ps = seq(ps, paths_method(cal.get("name"), depth + 1))
+        return ps
+
+    def paths_stmt(n, depth):
+        k = n.get("kind")
+        if k == "CompoundStmt":
+            ps = [(False, frozenset())]
+            for ch in kids(n):
+                ps = seq(ps, paths_stmt(ch, depth))
+            return ps
+        if k == "IfStmt" and not (n.get("hasVar") or n.get("hasInit")):
+            ks = kids(n)
+            cm = cond_members(ks[0])
+            pre = paths_expr(ks[0], depth)
+            th = paths_stmt(ks[1], depth) if len(ks) > 1 else [(False, frozenset())]
+            el = paths_stmt(ks[2], depth) if len(ks) > 2 else [(False, frozenset())]
+            both = [(j, g | cm) for (j, g) in th] + [(j, g | cm) for (j, g) in el]
+            return seq(pre, both)
+        if k in ("WhileStmt", "ForStmt", "DoStmt", "CXXForRangeStmt", "CXXTryStmt", "SwitchStmt", "CaseStmt", "DefaultStmt",
+                 "LabelStmt", "AttributedStmt", "CXXCatchStmt"):
+            ps = [(False, frozenset())]                # (a loop body is taken as executed: `for (thr : threads_) thr->join()`)
+            for ch in kids(n):
+                ps = seq(ps, paths_stmt(ch, depth))
+            return ps
+        return paths_expr(n, depth)
+
+    def paths_method(nm, depth):
+        s_ = sums.get(nm)
+        if s_ is None or not s_.body_nodes:
+            return [(False, frozenset())]
+        return paths_stmt(s_.body_nodes[0], depth)
+
     def join_guards(nm, seen):
         """None: no join() on any path of nm (through its calls on this); else the members read by the enclosing conditions."""
         s = sums.get(nm)
@@ -814,6 +904,7 @@ def analyse_class(objs, cname, all_classes):
         if s.kind == "dtor":
             jg = join_guards(nm, frozenset())
             s.join = None if jg is None else sorted(jg)
+            s.paths = [(j, sorted(g)) for (j, g) in paths_method(nm, 0)]
         out.append(s)
     return fields, out
 
@@ -920,6 +1011,7 @@ def analyse_logging(objs, relfile):
     # only the accesses to namespace-scope variables matter here (members of the stack-allocated Logger are thread-private)
     for q in order:
         sums[q].join = None
+        sums[q].paths = None
         sums[q].destroys = []
         sums[q].tails = {}
     return fields, [sums[q] for q in order]
@@ -1012,6 +1104,8 @@ def emit_coq(classes, table, srchash):
             L.append("  %s" % clist(regs))
             tails = ["(%s, %s)" % (cs(g), clist([cs(x) for x in t])) for g, t in sorted(s.tails.items()) if t]
             L.append("  %s" % clist(tails))
+            tl = ["(%s, %s)" % (cs(g), clist([cs(x) for x in t])) for g, t in sorted(s.taillocks.items()) if t]
+            L.append("  %s" % clist(tl))
             pas, seen = [], set()
             for (c, m, kind, ty, inloop, fl, ln) in s.postargs:
                 key = (c, m, kind, inloop)
@@ -1020,10 +1114,18 @@ def emit_coq(classes, table, srchash):
                 seen.add(key)
                 pas.append("mkPA %s %s %s %s %d" % (cs(c), cs(m), cs(kind), str(inloop).lower(), ln or 0))
             L.append("  %s" % clist(pas))
+            ras, seen = [], set()
+            for (tcls, setter, c, m, kind, ty, fl, ln) in s.regargs:
+                key = (tcls, setter, m, kind)
+                if key in seen:
+                    continue
+                seen.add(key)
+                ras.append("mkRA %s %s %s %s %d" % (cs(tcls), cs(setter), cs(m), cs(kind), ln or 0))
+            L.append("  %s" % clist(ras))
             if s.kind == "dtor":
                 L.append("  (Some (mkDtor %s %s))." % (
                     clist(["(%s, %d%%Z)" % (cs(fn), ln or 0) for (fn, fl, ln) in s.destroys]),
-                    "None" if s.join is None else "(Some %s)" % clist([cs(x) for x in s.join])))
+                    clist(["(%s, %s)" % (str(bool(j)).lower(), clist([cs(x) for x in g])) for (j, g) in (s.paths or [])])))
             else:
                 L.append("  None.")
     L.append("")
@@ -1168,7 +1270,8 @@ def main():
                                      "line": s.decl_line, "accesses": s.accesses, "calls": s.calls, "xcalls": s.xcalls,
                                      "posts": s.posts, "registers": s.registers, "lockuses": s.lockuses,
                                      "destroys": s.destroys, "joins": s.joins, "join": s.join, "rawposts": s.rawposts, "postargs": s.postargs,
-                                     "tails": s.tails, "bodies": s.bodies} for s in sums}}
+                                     "tails": s.tails, "taillocks": s.taillocks, "paths": s.paths,
+                                     "regargs": s.regargs, "bodies": s.bodies} for s in sums}}
         d = {"v": v, "summary": summ, "missing": MISSING + [l for l in buf.getvalue().splitlines() if l]}
         for old in glob.glob(os.path.join(WORK, "gen_%s_*.json" % hashlib.sha1(REPO.encode()).hexdigest()[:6])):
             try:
